@@ -54,7 +54,7 @@ func wtbfRun(t *testing.T, burst, rate int, pattern func(send func(n, size int),
 
 func wtbfCheck(t *testing.T, name string, evs []wtbfEvent, burst, rate int, drained bool) {
 	t.Helper()
-	// Close() drains the queue regardless of tokens: ignore the events of the final drain (after the last send + 20 ms)
+	// order and duplicates
 	last := -1
 	for i, e := range evs {
 		if e.id <= last {
@@ -90,7 +90,7 @@ func TestWitnessTBF(t *testing.T) {
 				send(12, 1000)
 				time.Sleep(5 * time.Millisecond)
 			})
-			// keep only what was forwarded before Close (the final drain ignores tokens by design)
+			// the burst window
 			var live []wtbfEvent
 			for _, e := range evs {
 				if e.id < 24 && (len(live) == 0 || e.at.Sub(live[0].at) < 60*time.Millisecond) {
